@@ -234,6 +234,7 @@ def msize_case(ctx, cfg, rnd, exact_code, selector, compile_src):
                          f"builtin in the constructor can then allocate inside the immutables region")
         if "MSIZE" not in names:
             probs.append("expected create_copy_of/create_from_blueprint to use MSIZE in the legacy pipeline")
+        probs += legacy_stub_tie(asm, len(rt), imm_len)[0]
     else:
         want = "MCOPY" if cfg.evm in ("cancun", "prague") else "STATICCALL"
         other = "STATICCALL" if want == "MCOPY" else "MCOPY"
@@ -354,6 +355,7 @@ def early_return_cases(ctx, cfg, rnd, exact_code, selector, compile_src):
 # mem_deploy_start = mem_deploy_end - len(runtime) on every evm version.  Dynamic: a constructor that makes external
 # calls returning 32 / 160 / revert-data bytes before its end, immutables assigned before and after them.
 
+BLOB = b"immutables must not move when the constructor has received return data 0123456789"
 ORACLE = """
 @external
 @view
@@ -367,13 +369,13 @@ def poke(x: uint256) -> uint256:
 @external
 @view
 def blob() -> Bytes[100]:
-    return b"immutables must not move when the constructor has received return data 0123456789"
+    return b"{blob}"
 
 @external
 @view
 def fail():
     raise "a revert reason that is longer than thirty-two bytes, on purpose"
-"""
+""".replace("{blob}", BLOB.decode())
 
 CALL_CTOR = """
 interface Oracle:
@@ -403,7 +405,7 @@ def __init__(o: address, a: uint256):
 
 LAST_CALLS = {   # statement(s) executed last in __init__ -> the return data the deploy stub sees
     "staticcall-32": "    OK = (staticcall Oracle(o).price()) == 31337",
-    "staticcall-160": "    OK = len(staticcall Oracle(o).blob()) == 82",
+    "staticcall-160": f"    OK = len(staticcall Oracle(o).blob()) == {len(BLOB)}",
     "extcall-32": "    OK = True\n    self.s = extcall Oracle(o).poke(self.s)\n    self.s = a ^ 5",
     "raw_call-outsize": "    r: Bytes[32] = raw_call(o, method_id(\"price()\"), max_outsize=32, is_static_call=True)\n    OK = len(r) == 32",
     "raw_call-revert-data": "    ok: bool = raw_call(o, method_id(\"fail()\"), revert_on_failure=False)\n    OK = not ok",
@@ -497,7 +499,7 @@ def call_ctor_cases(ctx, cfg, rnd, exact_code, selector, compile_src):
             probs.append((var, src, f"deployment fails (a={a})"))
             continue
         code = exact_code(ch, addr)
-        blob = b"immutables must not move when the constructor has received return data 0123456789"
+        blob = BLOB
         okv = True
         want = {"A": word(a), "P": word(31337), "K": word(a ^ 7), "D": word(int(ch_sender(ch), 16)), "OK": word(int(okv)),
                 "C": word(len(blob)) + blob + bytes(100 - len(blob))}
